@@ -40,6 +40,8 @@ def run(tier, seed):
                  "paths (hence all archives and call histories) rather than over sampled runs. Not decided: the fault-injection "
                  "quantifier as such (R1 shows each failure is noticed and returned, not how every caller up the stack reacts).")
     with Context(tier) as ctx:
+        from .. import selfcheck
+        selfcheck.run(ctx, rep, ['own'])
         mod = ctx.plain()
         cg = CallGraph(mod)
         own = Ownership(mod, cg)
